@@ -1,4 +1,5 @@
 import Goat.Model.Reload
+import Goat.Lemmas.Resolve
 /-!
 # C17 — reloading swaps code in place and keeps state
 -/
@@ -278,6 +279,32 @@ example :
     lookup s1.tab "F" = some 0 ∧ callRef s2 0 = some "F@2" ∧ callName s2 "T.M" = some "M@2" ∧
     lookup s2.vars "Count" = some 5 ∧ lookup s2.vars "Mode" = some 20 := by decide
 
+/-! ### a recompiled body sees only its own types (compiler.go `enterFunc`) -/
+
+open Goat.Resolve in
+/-- **recompile_forgets.** Whatever was compiled before - any history of function, method, literal and init
+    compilations (also of earlier versions of f itself) and of package-level definitions - once a body of f
+    has been compiled, the table of globals holds under f's name exactly the types that THIS body declares:
+    a reloaded function never resolves a name to a type of the version it replaces. -/
+theorem recompile_forgets (h : List Ev) (hok : ∀ e ∈ h, e.ok) (f : String) (hf : f ≠ "") (tys : List String)
+    (ty : String) : Key.ltype f ty ∈ (step (run h) (.compile f tys)).keys ↔ ty ∈ tys :=
+  Goat.Resolve.recompile_forgets h hok f hf tys ty
+
+open Goat.Resolve in
+/-- **resolve_history_independent.** Two histories that define the same package-level names and builtins
+    give the same resolution of every identifier in the body of a function compiled after them: what a
+    (re)loaded body means does not depend on which versions were loaded before. -/
+theorem resolve_history_independent (h1 h2 : List Ev) (ok1 : ∀ e ∈ h1, e.ok) (ok2 : ∀ e ∈ h2, e.ok)
+    (same : ∀ k, (∀ f ty, k ≠ .ltype f ty) → (k ∈ (run h1).keys ↔ k ∈ (run h2).keys))
+    (f : String) (hf : f ≠ "") (tys : List String) (locals : List String) (x : String) :
+    resolve (step (run h1) (.compile f tys)) { fn := f, inScope := true, locals := locals } x
+      = resolve (step (run h2) (.compile f tys)) { fn := f, inScope := true, locals := locals } x :=
+  Goat.Resolve.resolve_history_independent h1 h2 ok1 ok2 same f hf tys locals x
+
+example : Goat.Resolve.Key.ltype "main.f" "acc" ∈ (Goat.Resolve.run Goat.Resolve.hist).keys := by decide
+example : Goat.Resolve.Key.ltype "main.f" "acc" ∉
+    (Goat.Resolve.step (Goat.Resolve.run Goat.Resolve.hist) (.compile "main.f" [])).keys := by decide
+
 end Goat.Props.C17
 
 #print axioms Goat.Props.C17.reload_swaps_code
@@ -289,3 +316,5 @@ end Goat.Props.C17
 #print axioms Goat.Props.C17.declZero_fresh
 #print axioms Goat.Props.C17.declInit_resets
 #print axioms Goat.Props.C17.declInit_other
+#print axioms Goat.Props.C17.recompile_forgets
+#print axioms Goat.Props.C17.resolve_history_independent
